@@ -460,7 +460,9 @@ def NoValueNext (ws : List Word) : Prop :=
 
 /-- the legal surface forms of an abstract command line (first stage: one word group per use; flag
     groups behind one dash and value-less uses of optional-value arguments are not included yet).
-    The index is the handler's last-argument marker, which decides where free values go. -/
+    The index is the handler's last-argument marker, which decides where free values go.
+    In the long forms `wordKey name` is the key the handler builds for the typed name (`Model/Keys.lean`:
+    `Key.parse name`, and `Key.parse "--c"` — the long key `c` — for a name of one character). -/
 inductive Spells (cfg : Cfg) : Option Nat → List Use → List Word → Prop where
   | nil (l : Option Nat) : Spells cfg l [] []
   /-- `-c` for an argument without value -/
@@ -469,7 +471,7 @@ inductive Spells (cfg : Cfg) : Option Nat → List Use → List Word → Prop wh
       Spells cfg l ({ arg := i, val := [], ident := true } :: us) (['-', c] :: ws)
   /-- `--name` (exact or abbreviated) for an argument without value -/
   | longFlag {l : Option Nat} {name : Word} {k : Key} {i : Nat} {d : ArgDef} {us : List Use} {ws : List Word} :
-      name ≠ [] → findEq name = none → Key.parse name = .ok k → Resolves cfg k i d → d.vmode = .none →
+      name ≠ [] → findEq name = none → wordKey name = .ok k → Resolves cfg k i d → d.vmode = .none →
       Spells cfg (some i) us ws →
       Spells cfg l ({ arg := i, val := [], ident := true } :: us) (('-' :: '-' :: name) :: ws)
   /-- `-c value` -/
@@ -478,12 +480,12 @@ inductive Spells (cfg : Cfg) : Option Nat → List Use → List Word → Prop wh
       Spells cfg l ({ arg := i, val := v, ident := true } :: us) (['-', c] :: v :: ws)
   /-- `--name value` -/
   | longVal {l : Option Nat} {name v : Word} {k : Key} {i : Nat} {d : ArgDef} {us : List Use} {ws : List Word} :
-      name ≠ [] → findEq name = none → Key.parse name = .ok k → Resolves cfg k i d → d.vmode ≠ .none →
+      name ≠ [] → findEq name = none → wordKey name = .ok k → Resolves cfg k i d → d.vmode ≠ .none →
       PlainWord v → Spells cfg (some i) us ws →
       Spells cfg l ({ arg := i, val := v, ident := true } :: us) (('-' :: '-' :: name) :: v :: ws)
   /-- `--name=value` (the value may be anything, also empty or starting with a dash) -/
   | longEq {l : Option Nat} {name v : Word} {k : Key} {i : Nat} {d : ArgDef} {us : List Use} {ws : List Word} :
-      name ≠ [] → findEq name = none → Key.parse name = .ok k → Resolves cfg k i d → d.vmode ≠ .none →
+      name ≠ [] → findEq name = none → wordKey name = .ok k → Resolves cfg k i d → d.vmode ≠ .none →
       Spells cfg (some i) us ws →
       Spells cfg l ({ arg := i, val := v, ident := true } :: us) (('-' :: '-' :: (name ++ '=' :: v)) :: ws)
   /-- `-cVALUE` (value glued to the short key; only for arguments that require a value) -/
@@ -496,7 +498,7 @@ inductive Spells (cfg : Cfg) : Option Nat → List Use → List Word → Prop wh
       Spells cfg l ({ arg := i, val := [], ident := true } :: us) (['-', c] :: ws)
   /-- `--name` for an argument whose value is optional, not followed by a value -/
   | longOpt {l : Option Nat} {name : Word} {k : Key} {i : Nat} {d : ArgDef} {us : List Use} {ws : List Word} :
-      name ≠ [] → findEq name = none → Key.parse name = .ok k → Resolves cfg k i d → d.vmode = .optional →
+      name ≠ [] → findEq name = none → wordKey name = .ok k → Resolves cfg k i d → d.vmode = .optional →
       NoValueNext ws → Spells cfg (some i) us ws →
       Spells cfg l ({ arg := i, val := [], ident := true } :: us) (('-' :: '-' :: name) :: ws)
   /-- `-abc`: several arguments without value grouped behind one dash -/
